@@ -267,6 +267,26 @@ func (in *Interp) native(fv *FuncV, args []Value, at token.Pos) []Value {
 		return []Value{path.Base(str(args[0]))}
 	case "path.IsAbs":
 		return []Value{path.IsAbs(str(args[0]))}
+	case "path/filepath.Clean":
+		return []Value{filepath.Clean(str(args[0]))}
+	case "path/filepath.FromSlash":
+		return []Value{filepath.FromSlash(str(args[0]))}
+	case "path/filepath.ToSlash":
+		return []Value{filepath.ToSlash(str(args[0]))}
+	case "path/filepath.IsAbs":
+		return []Value{filepath.IsAbs(str(args[0]))}
+	case "path/filepath.Ext":
+		return []Value{filepath.Ext(str(args[0]))}
+	case "path.Clean":
+		return []Value{path.Clean(str(args[0]))}
+	case "path.Dir":
+		return []Value{path.Dir(str(args[0]))}
+	case "path.Join":
+		var ss []string
+		for _, a := range args {
+			ss = append(ss, str(a))
+		}
+		return []Value{path.Join(ss...)}
 	case "path/filepath.Base":
 		return []Value{filepath.Base(str(args[0]))}
 	case "path/filepath.Dir":
